@@ -366,6 +366,32 @@ def binary_mutants(base, rng, tier):
     return out
 
 
+BLOB_LENGTHS = [1 << 20, 1 << 26, 1 << 28, 1 << 32, 1 << 40, 1 << 63]
+
+
+def blob_header_inflated(base, off, L):
+    """the logical stream with the blob section header at physical offset off declaring 16 + L rounded up to 4"""
+    return put(base.log, log_of_phys(off) + 8, "<Q", ((16 + L + 3) // 4 * 4) & U64)
+
+
+def blob_length_mutants(base):
+    """a blob length inflated CONSISTENTLY in the section header and in the XML `length` attribute (checksums re-sealed):
+    the mismatch check of Blob::read passes, so the length must not be trusted for an allocation"""
+    out = []
+    txt = base.xml.decode("latin-1")
+    for off, ln in base.blobs[:3]:
+        if log_of_phys(off) + 16 > len(base.log):
+            continue
+        for L in BLOB_LENGTHS:
+            m = re.search(r'fileOffset="%d"([^>]*?)length="%d"' % (off, ln), txt)
+            if not m:
+                continue
+            xml = txt[:m.start()] + 'fileOffset="%d"%slength="%d"' % (off, m.group(1), L) + txt[m.end():]
+            b2 = Base(base.name, seal(blob_header_inflated(base, off, L)), base.origin)
+            out.append(("blob-length-consistent", with_xml(b2, xml.encode("latin-1"))))
+    return out
+
+
 def other_mutants(base, rng, tier):
     """unsealed damage, truncations, extensions"""
     out = []
@@ -492,6 +518,8 @@ def all_mutants(bases, rng, tier):
             out.append(dict(kind=kind, base=b.name, phys=with_xml(b, xml, fix_len=not r.chance(1, 10))))
         for kind, phys in other_mutants(b, r, tier):
             out.append(dict(kind=kind, base=b.name, phys=phys))
+        for kind, phys in blob_length_mutants(b):
+            out.append(dict(kind=kind, base=b.name, phys=phys, keep=True))
     for kind, phys, note in crafted(core.Rng(rng.next())):
         out.append(dict(kind=kind, base="crafted", phys=phys, note=note))
     # quick tier: thin out the systematic binary classes of the larger files, keeping every class
@@ -504,7 +532,7 @@ def all_mutants(bases, rng, tier):
             for m in out:
                 k = (m["kind"], m["base"])
                 seen[k] = seen.get(k, 0) + 1
-                if seen[k] <= 2 or m["base"] == "crafted" or r.below(1000) < int(1000 * p_keep):
+                if seen[k] <= 2 or m["base"] == "crafted" or m.get("keep") or r.below(1000) < int(1000 * p_keep):
                     keep.append(m)
             out = keep
     return out
@@ -654,6 +682,14 @@ def descriptor_cases(bases, rng, tier):
     if tier == "quick" and len(lines) > 900:
         keep = sorted(set(rng.below(len(lines)) for _ in range(900)))
         lines, notes = [lines[i] for i in keep], [notes[i] for i in keep]
+    # a blob length inflated consistently in the section header and in the descriptor (never thinned out)
+    for b in bases:
+        for off, ln in b.blobs[:2]:
+            if len(b.phys) > MODEL_MAX_BYTES or log_of_phys(off) + 16 > len(b.log):
+                continue
+            for L in BLOB_LENGTHS:
+                lines.append("TOTBLOB %s %d %d" % (devtok(seal(blob_header_inflated(b, off, L))), off, L))
+                notes.append("blob length inflated consistently in header and descriptor")
     return lines, notes
 
 
@@ -715,7 +751,12 @@ def explore(rep, tier, rng, replay, profiles=("debug", "release")):
     res = dict(muts=muts, out=out, tot=tots, model=model, bases=bases, masks=masks)
     if not replay:
         fl, fn = descriptor_cases(bases, core.Rng(rng.next()), tier)
-        res["free"] = dict(lines=fl, notes=fn, out={p: core.run_cases(bins[p], fl) for p in profiles}, model=core.run_cases(core.DRIVER, fl))
+        def run_free(binary):
+            o = core.run_cases(binary, fl)
+            for i in [i for i, x in enumerate(o) if x is None or x.startswith("CRASH")]:
+                o[i] = core.run_cases(binary, [fl[i]], shards=1)[0]     # alone: a dead process takes its neighbours' results with it
+            return o
+        res["free"] = dict(lines=fl, notes=fn, out={p: run_free(bins[p]) for p in profiles}, model=core.run_cases(core.DRIVER, fl))
         big = big_testdata()
         bm = [dict(kind="unmodified", base="t:" + fn_[:-4], phys=d) for fn_, d in big]
         res["big"] = dict(muts=bm, out={p: run_tot(bins[p], bm, [0, 63]) for p in profiles})
